@@ -78,6 +78,7 @@ func init() {
 				}
 			}
 			x.mon = vNewMonitor(out, x)
+			keyCount0 := v.counters().KeyCount
 			v.base = v.counters()
 			v.onReply = x.mon.onReply
 			bad := ""
@@ -111,6 +112,21 @@ func init() {
 			}
 			out.emit(rl, obs)
 			x.mon.flush()
+			if bad == "" {
+				// as in the generated runs: after the recorded drain, 18 s later every key record must be gone again
+				v.onReply = nil
+				for i := 0; i < 18; i++ {
+					v.tick()
+				}
+				live := 0
+				for _, key := range x.keys {
+					ks := v.keySnap(key)
+					live += len(ks.holds) + len(ks.waits)
+				}
+				if kc := v.counters().KeyCount; live == 0 && kc != keyCount0 {
+					out.monitor("C17:keycount-after-drain", fmt.Sprintf("KeyCount is %d (baseline %d) after every hold was released, every waiter answered and 18 s passed", kc, keyCount0), map[string]string{"ops": rl})
+				}
+			}
 		}
 	}
 }
